@@ -12,7 +12,9 @@ TAG_RX = re.compile(r"/[/\*]\s*@([A-Z0-9,]+):([\w\.\-<>]+)")
 SEMANTIC = (
     "postcondition not satisfied",
     "precondition not satisfied",
+    "precondition not met",
     "assertion failed",
+    "assertion not satisfied",
     "invariant not satisfied",
     "loop invariant not",
     "possible arithmetic underflow/overflow",
@@ -196,7 +198,7 @@ def run_unit(unit, extra=(), repo=REPO, keep=True):
                                        fn=fn_name, kind=kind, gen_line=line, src=item["src"] if item else None,
                                        src_line=src_line, snippet=snippet, message=_render(d)))
         else:
-            props = ["C03"] if (kind in SAFETY or kind == "precondition not satisfied") else _fn_props(r, item)
+            props = ["C03"] if (kind in SAFETY or kind.startswith("precondition")) else _fn_props(r, item)
             r.failures.append(dict(unit=unit, obligation="%s/%s.safety" % (unit, fn_name) if props == ["C03"] else "%s/%s.%s" % (unit, fn_name, kind.split()[0]),
                                    tag=None, props=props, fn=fn_name, kind=kind, gen_line=line,
                                    src=item["src"] if item else None, src_line=src_line, snippet=snippet, message=_render(d)))
